@@ -1663,6 +1663,68 @@ def run_reuse(ctx):
                           {"kind": "reuse-constraint", "scenario": sc_})
 
 
+def run_reuse_packages(ctx):
+    """(c) an Optimization object whose package was replaced by a package of the same name with other members gives the constraints of the NEW package;
+    (d) two adjustable-total packages with the same name in different years are either refused, or each year's total is really met after constraining."""
+    import atomica as at
+    import atomica.optimization as ao
+    import sciris as sc
+    from atomica.utils import TimeSeries
+
+    r = ctx.rng
+    for _ in range(ctx.n(4, 30)):
+        progs = ["P0", "P1", "P2", "P3"]
+        spend = {p: float(r.choice([10.0, 25.0, 40.0, 5.0])) for p in progs}
+        years = [2020, 2021]
+        mk_ins = lambda: at.ProgramInstructions(start_year=2020, alloc={p: TimeSeries(t=years, vals=[spend[p], spend[p]]) for p in progs})
+        def pkg(name, t, members):
+            sp = np.array([spend[m] for m in members])
+            return ao.SpendingPackageAdjustment(name, t, list(members), sp, min_total_spend=0.0, max_total_spend=float(sp.sum()) * 3)
+        other = lambda t, members: [ao.SpendingAdjustment(p_, [t], "abs", [0.0], [1000.0]) for p_ in progs if p_ not in members]
+        bf = r.choice([1.2, 0.8])
+        # (c)
+        old = np.seterr(all="ignore")
+        try:
+            m1, m2 = ["P0", "P1"], ["P2", "P3"]
+            opt = ao.Optimization(adjustments=[pkg("pk", 2020, m1)] + other(2020, m1), measurables=[], constraints=[ao.TotalSpendConstraint(t=[2020], budget_factor=bf)])
+            _hard_of(opt, mk_ins())
+            opt.adjustments = [pkg("pk", 2020, m2)] + other(2020, m2)
+            reused = _hard_of(opt, mk_ins())
+            fresh = _hard_of(ao.Optimization(adjustments=[pkg("pk", 2020, m2)] + other(2020, m2), measurables=[], constraints=[ao.TotalSpendConstraint(t=[2020], budget_factor=bf)]), mk_ins())
+        finally:
+            np.seterr(**old)
+        ctx.count("reuse.package_replaced")
+        ctx.case({"oracle": "reuse-package", "bf": bf}, nontrivial=True, sample=None)
+        if reused != fresh:
+            ctx.violation({"api": "Optimization.get_adjustment", "case": "depends-on-earlier-use-of-the-same-objects"},
+                          f"an Optimization whose package 'pk' ({m1}) was replaced by a package of the same name with members {m2}: hard constraints {str(reused)[:240]}; a fresh Optimization gives {str(fresh)[:240]}", {"kind": "reuse-package"})
+        # (d)
+        old = np.seterr(all="ignore")
+        try:
+            adjs = [pkg("pk", 2020, ["P0", "P1"]), pkg("pk", 2021, ["P0", "P1"])] + other(2020, ["P0", "P1"]) + other(2021, ["P0", "P1"])
+            opt = ao.Optimization(adjustments=adjs, measurables=[], constraints=[ao.TotalSpendConstraint(t=years, budget_factor=bf)])
+            ins = mk_ins()
+            status, totals = "ok", None
+            try:
+                x0, xmin, xmax = opt.get_initialization(StubProgset(), ins)
+                hcs = opt.get_hard_constraints(x0, ins)
+                x = np.array(x0, dtype=float) * r.choice([0.7, 1.4])
+                i3 = sc.dcp(ins)
+                opt.update_instructions(np.clip(x, xmin, xmax), i3)
+                opt.constrain_instructions(i3, hcs)
+                totals = {t: (float(sum(i3.alloc[p_].get(t) for p_ in progs)), float(np.ravel(hcs[0]["initial_total_spend"][t])[0]) if t in hcs[0]["initial_total_spend"] else None) for t in years}
+            except Exception as e:
+                status = type(e).__name__ + ": " + str(e)[:80]
+        finally:
+            np.seterr(**old)
+        ctx.count("reuse.duplicate_package_name")
+        ctx.case({"oracle": "duplicate-package-name", "bf": bf}, nontrivial=True, sample=None)
+        want = {t: bf * sum(spend.values()) for t in years}
+        if status == "ok" and any(abs(totals[t][0] - want[t]) > 1e-6 * want[t] for t in years):
+            ctx.violation({"api": "TotalSpendConstraint.get_hard_constraint", "case": "same-package-name-in-two-years-accepted-but-total-not-met"},
+                          f"two adjustable-total packages named 'pk' (years 2020 and 2021) under a total-spend constraint x{bf}: accepted, but after constraining the yearly totals are {{t: round(v[0], 4) for t, v in totals.items()}} = { {t: round(v[0], 4) for t, v in totals.items()} }, required {want}", {"kind": "duplicate-package"})
+
+
 def run(ctx):
     import logging
     import atomica
@@ -1674,6 +1736,7 @@ def run(ctx):
     settotal_cases(ctx)
     run_trace(ctx)
     run_reuse(ctx)
+    run_reuse_packages(ctx)
     byk = {}
     for v in ctx.violations:
         k = v["key"]["api"] + ":" + v["key"]["case"]
